@@ -111,7 +111,7 @@ def get_hess(func, p0, eps, args=()):
     for i, pval in enumerate(p0):
         if pval != 0:
             # Account for floating point arithmetic issues
-            if pval*eps_in < 1e-6:
+            if abs(pval*eps_in) < 1e-6:
                 eps[i] = eps_in
                 one_sided[i] = True
             else:
@@ -148,7 +148,7 @@ def get_grad(func, p0, eps, args=()):
     for i, pval in enumerate(p0):
         if pval != 0:
             # Account for floating point arithmetic issues
-            if pval*eps_in < 1e-6:
+            if abs(pval*eps_in) < 1e-6:
                 eps[i] = eps_in
                 one_sided[i] = True
             else:
